@@ -114,23 +114,53 @@ func (p *Parser) declaration() (Decl, *ParseError) {
 	case p.check(TokenConstAssert):
 		return p.constAssertDecl()
 	case p.check(TokenEnable):
-		// Skip enable directives for now
+		// enable directives are parsed (so that a malformed one is an error
+		// at the right token) and otherwise ignored:
+		//   enable name (, name)* ,? ;
 		p.advance()
-		for !p.check(TokenSemicolon) && !p.isAtEnd() {
+		for {
+			if !p.isDirectiveName() {
+				return nil, &ParseError{Message: "expected extension name", Token: p.peek()}
+			}
 			p.advance()
+			if !p.match(TokenComma) || p.check(TokenSemicolon) {
+				break
+			}
 		}
-		if p.check(TokenSemicolon) {
-			p.advance()
+		if err := p.expectErr(TokenSemicolon); err != nil {
+			return nil, err
 		}
 		return nil, nil
 	case p.check(TokenDiagnostic):
-		// Skip diagnostic directives for now
+		// diagnostic directives are parsed and otherwise ignored:
+		//   diagnostic ( severity , rule (. name)? ,? ) ;
 		p.advance()
-		for !p.check(TokenSemicolon) && !p.isAtEnd() {
+		if err := p.expectErr(TokenLeftParen); err != nil {
+			return nil, err
+		}
+		if !p.isDirectiveName() {
+			return nil, &ParseError{Message: "expected severity name", Token: p.peek()}
+		}
+		p.advance()
+		if err := p.expectErr(TokenComma); err != nil {
+			return nil, err
+		}
+		if !p.isDirectiveName() {
+			return nil, &ParseError{Message: "expected diagnostic rule name", Token: p.peek()}
+		}
+		p.advance()
+		if p.match(TokenDot) {
+			if !p.isDirectiveName() {
+				return nil, &ParseError{Message: "expected diagnostic rule name", Token: p.peek()}
+			}
 			p.advance()
 		}
-		if p.check(TokenSemicolon) {
-			p.advance()
+		p.match(TokenComma)
+		if err := p.expectErr(TokenRightParen); err != nil {
+			return nil, err
+		}
+		if err := p.expectErr(TokenSemicolon); err != nil {
+			return nil, err
 		}
 		return nil, nil
 	case p.check(TokenOverride):
@@ -144,6 +174,21 @@ func (p *Parser) declaration() (Decl, *ParseError) {
 			Token:   tok,
 		}
 	}
+}
+
+// isDirectiveName reports whether the current token can be a name inside an
+// enable/diagnostic directive: an identifier or a keyword spelled like one
+// (e.g. `f16`, `off`).
+func (p *Parser) isDirectiveName() bool {
+	if p.isAtEnd() {
+		return false
+	}
+	lex := p.peek().Lexeme
+	if lex == "" {
+		return false
+	}
+	c := lex[0]
+	return c == '_' || (c >= 'a' && c <= 'z') || (c >= 'A' && c <= 'Z')
 }
 
 // attributes parses a list of attributes (@location(0), @vertex, etc.)
